@@ -161,6 +161,10 @@ def parse_block(blk):
         if m:
             r['failed'] = int(m.group(1))
             r['total'] = int(m.group(2))
+        m = re.match(r'\s*\*\* (\d+) of (\d+) cover properties satisfied', ln)
+        if m:
+            r['covers_sat'] = int(m.group(1))
+            r['covers'] = int(m.group(2))
         m = re.match(r'Failed Checks: (.*)$', ln)
         if m:
             loc = blk[k + 1].strip() if k + 1 < len(blk) and blk[k + 1].strip().startswith('File:') else ''
@@ -174,7 +178,7 @@ def parse_block(blk):
     return r
 
 
-def run_kani(unit_name, repo='/repo', tier='quick', jobs=8, timeout=1500, only=None, keep=False):
+def run_kani(unit_name, repo='/repo', tier='quick', jobs=6, timeout=1500, only=None, keep=False):
     t0 = time.time()
     unit = KUnit(os.path.join(VERIF, 'kani', unit_name + '.ku'))
     out = {'unit': unit_name, 'status': 'ok', 'trouble': [], 'harnesses': {}, 'failures': [], 'cmd': '',
@@ -200,7 +204,8 @@ def run_kani(unit_name, repo='/repo', tier='quick', jobs=8, timeout=1500, only=N
         out['cmd'] = ' '.join(cmd)
         env = dict(os.environ, CARGO_NET_OFFLINE='true')
         try:
-            p = subprocess.run(cmd, cwd=crate, capture_output=True, text=True, timeout=timeout, env=env)
+            p = subprocess.run(cmd, cwd=crate, capture_output=True, text=True, timeout=timeout, env=env,
+                               preexec_fn=_limit_memory)
             txt = p.stdout + '\n' + p.stderr
             rc = p.returncode
         except subprocess.TimeoutExpired as e:
@@ -218,6 +223,10 @@ def run_kani(unit_name, repo='/repo', tier='quick', jobs=8, timeout=1500, only=N
             r = res[full[0]]
             r['meta'] = h
             out['harnesses'][h['name']] = r
+            if r.get('covers') is not None and r['covers_sat'] != r['covers']:
+                out['trouble'].append('harness %s: vacuity: only %d of %d cover properties satisfied' % (h['name'], r['covers_sat'], r['covers']))
+            if h.get('covers') and int(h['covers']) != (r.get('covers') or 0):
+                out['trouble'].append('harness %s: expected %s cover properties, Kani reported %s' % (h['name'], h['covers'], r.get('covers')))
             if r['status'] == 'SUCCESSFUL':
                 continue
             real = [c for c in r['failed_checks'] if not any(p.search(c['desc']) for p in IGNORED_CHECK_PATTERNS)]
@@ -264,6 +273,13 @@ def run_kani(unit_name, repo='/repo', tier='quick', jobs=8, timeout=1500, only=N
     return out
 
 
+def _limit_memory():
+    # every CBMC process is capped (address space) so that a runaway query ends as tool trouble, not as an OOM kill
+    import resource
+    cap = int(os.environ.get('VERIF_KANI_MEM_GB', '10')) * (1 << 30)
+    resource.setrlimit(resource.RLIMIT_AS, (cap, cap))
+
+
 def concrete_playback(crate, unit, hname, env, timeout=900):
     """Ask Kani for concrete values of the failing harness, insert the generated unit test in
     place and run it natively on the real code (`cargo kani playback`)."""
@@ -308,7 +324,7 @@ def _slug(s):
 if __name__ == '__main__':
     import json
     r = run_kani(sys.argv[1], repo=os.environ.get('VERIF_REPO', '/repo'), tier=os.environ.get('VERIF_TIER', 'quick'),
-                 only=sys.argv[2:] or None)
+                 only=sys.argv[2:] or None, timeout=int(os.environ.get('VERIF_KANI_TIMEOUT', '600')))
     print(r['status'], 'wall', round(r['wall_s'], 1))
     for t in r['trouble']:
         print('TROUBLE', t)
